@@ -9,6 +9,9 @@ import YowsupVerif.Props.C05
 namespace Yow.Segments
 open Yow.Gen.SegSrc
 
+/-- the run in which the layers above accept every frame (`toUpper` returns normally) -/
+abbrev ok : Bytes → Bool := fun _ => false
+
 /-- the layer's state as the translated methods see it: the read buffer, the framing switch as the stack property, the argument -/
 def envOf (s : St) (arg : Bytes) : Env :=
   { self__read_buffer := s.buf, prop_PROP_ENABLED := some s.enabled, data := arg }
@@ -16,18 +19,19 @@ def envOf (s : St) (arg : Bytes) : Env :=
 /-- `receive` of the current source computes the model's `recv`: same buffer afterwards, same frames handed upward in the same order,
     nothing written downward, no exception; and the fuel of the translation never cuts the loop off. -/
 theorem C05_source_receive_is_the_model (s : St) (chunk : Bytes) (fuel : Nat) (hf : (s.buf ++ chunk).length < fuel) :
-    (receive fuel (envOf s chunk)).self__read_buffer = (recv s chunk).1.buf ∧
-    (receive fuel (envOf s chunk)).up = (recv s chunk).2 ∧
-    (receive fuel (envOf s chunk)).low = [] ∧
-    (receive fuel (envOf s chunk)).raised = false ∧
-    (receive fuel (envOf s chunk)).fuelOut = false ∧
-    (receive fuel (envOf s chunk)).prop_PROP_ENABLED = some s.enabled := by
+    (receive ok fuel (envOf s chunk)).self__read_buffer = (recv s chunk).1.buf ∧
+    (receive ok fuel (envOf s chunk)).up = (recv s chunk).2 ∧
+    (receive ok fuel (envOf s chunk)).low = [] ∧
+    (receive ok fuel (envOf s chunk)).raised = false ∧
+    (receive ok fuel (envOf s chunk)).fuelOut = false ∧
+    (receive ok fuel (envOf s chunk)).prop_PROP_ENABLED = some s.enabled := by
   cases he : s.enabled
   · simp [receive, envOf, recv, he]
-  · have h := loop_is_peel fuel { self__read_buffer := s.buf ++ chunk, prop_PROP_ENABLED := some true, data := chunk }
+  · have h := loop_is_peelF ok fuel { self__read_buffer := s.buf ++ chunk, prop_PROP_ENABLED := some true, data := chunk }
       (by simpa using hf) rfl rfl
     unfold LoopPost at h
-    obtain ⟨h1, h2, h3, h4, _, h6, h7⟩ := h
+    rw [show peelF ok (s.buf ++ chunk) = _ from peelF_never (s.buf ++ chunk)] at h
+    obtain ⟨h1, h2, h4, h3, _, h6, h7⟩ := h
     simp only [receive, envOf, recv, he]
     simp at h1 h2 h3 h4 h6 h7 ⊢
     exact ⟨h1, h2, h3, h4, h6, h7⟩
@@ -35,9 +39,9 @@ theorem C05_source_receive_is_the_model (s : St) (chunk : Bytes) (fuel : Nat) (h
 /-- `send` of the current source computes the model's `send`: refused exactly from 2^24 bytes on, otherwise the writes of the model
     in the same order; the read buffer is not touched and nothing is handed upward. -/
 theorem C05_source_send_is_the_model (s : St) (p : Bytes) (fuel : Nat) :
-    (if (Gen.SegSrc.send fuel (envOf s p)).raised then SendOut.refused else .writes (Gen.SegSrc.send fuel (envOf s p)).low)
+    (if (Gen.SegSrc.send ok fuel (envOf s p)).raised then SendOut.refused else .writes (Gen.SegSrc.send ok fuel (envOf s p)).low)
       = Segments.send s.enabled p ∧
-    (Gen.SegSrc.send fuel (envOf s p)).self__read_buffer = s.buf ∧ (Gen.SegSrc.send fuel (envOf s p)).up = [] := by
+    (Gen.SegSrc.send ok fuel (envOf s p)).self__read_buffer = s.buf ∧ (Gen.SegSrc.send ok fuel (envOf s p)).up = [] := by
   by_cases h : 16777216 ≤ p.length
   · simp [Gen.SegSrc.send, Segments.send, envOf, h]
   · have h2 : ¬ 4294967296 ≤ p.length := by omega
@@ -45,15 +49,15 @@ theorem C05_source_send_is_the_model (s : St) (p : Bytes) (fuel : Nat) :
 
 /-- a refused payload leaves no partial write behind (no header without its payload) -/
 theorem C05_source_refused_send_writes_nothing (s : St) (p : Bytes) (fuel : Nat) (h : 16777216 ≤ p.length) :
-    (Gen.SegSrc.send fuel (envOf s p)).raised = true ∧ (Gen.SegSrc.send fuel (envOf s p)).low = [] := by
+    (Gen.SegSrc.send ok fuel (envOf s p)).raised = true ∧ (Gen.SegSrc.send ok fuel (envOf s p)).low = [] := by
   simp [Gen.SegSrc.send, envOf, h]
 
 /-- a stack on which the switch was never set behaves like one with the switch off -/
 theorem C05_source_unset_switch_is_off (buf arg : Bytes) (fuel : Nat) :
-    receive fuel { self__read_buffer := buf, prop_PROP_ENABLED := none, data := arg } =
-      { (receive fuel { self__read_buffer := buf, prop_PROP_ENABLED := some false, data := arg }) with prop_PROP_ENABLED := none } ∧
-    Gen.SegSrc.send fuel { self__read_buffer := buf, prop_PROP_ENABLED := none, data := arg } =
-      { (Gen.SegSrc.send fuel { self__read_buffer := buf, prop_PROP_ENABLED := some false, data := arg }) with prop_PROP_ENABLED := none } := by
+    receive ok fuel { self__read_buffer := buf, prop_PROP_ENABLED := none, data := arg } =
+      { (receive ok fuel { self__read_buffer := buf, prop_PROP_ENABLED := some false, data := arg }) with prop_PROP_ENABLED := none } ∧
+    Gen.SegSrc.send ok fuel { self__read_buffer := buf, prop_PROP_ENABLED := none, data := arg } =
+      { (Gen.SegSrc.send ok fuel { self__read_buffer := buf, prop_PROP_ENABLED := some false, data := arg }) with prop_PROP_ENABLED := none } := by
   constructor
   · simp [receive]
   · by_cases h : 16777216 ≤ arg.length <;> simp [Gen.SegSrc.send, h]
@@ -61,7 +65,7 @@ theorem C05_source_unset_switch_is_off (buf arg : Bytes) (fuel : Nat) :
 /-- the handler of the lost connection empties the read buffer, and it is registered for the very event the network layer announces a
     lost connection with (both regenerated) -/
 theorem C05_source_disconnect_drops_the_buffer (e : Env) (fuel : Nat) :
-    (on_disconnected fuel e).self__read_buffer = [] ∧ networkDisconnectedEvent ∈ onDisconnectedEvents := by
+    (on_disconnected ok fuel e).self__read_buffer = [] ∧ networkDisconnectedEvent ∈ onDisconnectedEvents := by
   constructor
   · simp [on_disconnected]
   · decide
@@ -70,14 +74,14 @@ theorem C05_source_disconnect_drops_the_buffer (e : Env) (fuel : Nat) :
     everything handed upward is collected -/
 def runSrc (s : St) (cs : List Bytes) : St × List Bytes :=
   cs.foldl (fun (acc : St × List Bytes) c =>
-    let r := receive ((acc.1.buf ++ c).length + 1) (envOf acc.1 c)
+    let r := receive ok ((acc.1.buf ++ c).length + 1) (envOf acc.1 c)
     ({ acc.1 with buf := r.self__read_buffer }, acc.2 ++ r.up)) (s, [])
 
 theorem runSrc_is_run (s : St) (cs : List Bytes) : runSrc s cs = run s cs := by
   unfold runSrc run
   suffices h : ∀ (acc : St × List Bytes),
       cs.foldl (fun (acc : St × List Bytes) c =>
-        let r := receive ((acc.1.buf ++ c).length + 1) (envOf acc.1 c)
+        let r := receive ok ((acc.1.buf ++ c).length + 1) (envOf acc.1 c)
         ({ acc.1 with buf := r.self__read_buffer }, acc.2 ++ r.up)) acc
       = cs.foldl (fun (acc : St × List Bytes) c => let r := recv acc.1 c; (r.1, acc.2 ++ r.2)) acc from h _
   induction cs with
@@ -86,7 +90,7 @@ theorem runSrc_is_run (s : St) (cs : List Bytes) : runSrc s cs = run s cs := by
     intro acc
     simp only [List.foldl_cons]
     have h := C05_source_receive_is_the_model acc.1 c ((acc.1.buf ++ c).length + 1) (by omega)
-    have hst : ({ acc.1 with buf := (receive ((acc.1.buf ++ c).length + 1) (envOf acc.1 c)).self__read_buffer } : St) = (recv acc.1 c).1 := by
+    have hst : ({ acc.1 with buf := (receive ok ((acc.1.buf ++ c).length + 1) (envOf acc.1 c)).self__read_buffer } : St) = (recv acc.1 c).1 := by
       rw [h.1]; obtain ⟨⟨en, buf⟩, out⟩ := acc; cases en <;> simp [recv]
     rw [hst, h.2.1]
     exact ih _
@@ -101,7 +105,7 @@ theorem C05_source_any_chunking (fs : List Bytes) (hfs : FramesOK fs) (cs : List
     frames, any chunking — are handed up exactly. -/
 theorem C05_source_after_a_lost_connection (e : Env) (fuel : Nat) (fs : List Bytes) (hfs : FramesOK fs) (cs : List Bytes)
     (hcs : cs.flatten = stream fs) :
-    runSrc { enabled := true, buf := (on_disconnected fuel e).self__read_buffer } cs = ({ enabled := true, buf := [] }, fs) := by
+    runSrc { enabled := true, buf := (on_disconnected ok fuel e).self__read_buffer } cs = ({ enabled := true, buf := [] }, fs) := by
   rw [(C05_source_disconnect_drops_the_buffer e fuel).1]
   exact C05_source_any_chunking fs hfs cs hcs
 
@@ -109,6 +113,6 @@ theorem C05_source_after_a_lost_connection (e : Env) (fuel : Nat) (fs : List Byt
 example : (runSrc init [[0, 0, 2, 7, 8, 0], [0, 1], [9]]).2 = [[7, 8], [9]] ∧ (runSrc init [[0, 0, 2, 7, 8, 0], [0, 1], [9]]).1.buf = [] := by decide
 
 /-- a frame that is not complete yet stays in the buffer and nothing is handed up (run of the translated code) -/
-example : (receive 10 (envOf init [0, 0, 2, 7])).up = [] ∧ (receive 10 (envOf init [0, 0, 2, 7])).self__read_buffer = [0, 0, 2, 7] := by decide
+example : (receive ok 10 (envOf init [0, 0, 2, 7])).up = [] ∧ (receive ok 10 (envOf init [0, 0, 2, 7])).self__read_buffer = [0, 0, 2, 7] := by decide
 
 end Yow.Segments
